@@ -96,12 +96,21 @@ def deep_texts():
     return out
 
 
+def file_bytes(text):
+    """The bytes of a label file: UTF-8, with U+DC80..U+DCFF standing for the raw
+    bytes 0x80..0xFF (so that a case can carry undecodable bytes and still be JSON)."""
+    try:
+        return text.encode("utf-8", "surrogateescape")
+    except UnicodeEncodeError:
+        return text.encode("utf-8", "surrogatepass")
+
+
 def check_translate(text, fmt):
     """None or (signature, detail)."""
     d = workdir()
     inp, outp = os.path.join(d, "in.lbl"), os.path.join(d, "out.txt")
-    with open(inp, "w", encoding="utf-8", newline="") as f:
-        f.write(text)
+    with open(inp, "wb") as f:
+        f.write(file_bytes(text))
     if os.path.exists(outp):
         os.remove(outp)
     importlib_reload()
@@ -247,8 +256,8 @@ def check_validate(texts):
     files = []
     for i, t in enumerate(texts):
         p = os.path.join(d, f"f{i}.lbl")
-        with open(p, "w", encoding="utf-8", newline="") as f:
-            f.write(t)
+        with open(p, "wb") as f:
+            f.write(file_bytes(t))
         files.append(p)
     importlib_reload()
     for k, v in pv.dialects.items():
@@ -302,6 +311,22 @@ _CORPUS = None
 
 @st.composite
 def texts(draw):
+    """A label text, sometimes dressed as files in the wild are: a UTF-8 byte order
+    mark in front, binary (undecodable) data or NULs behind."""
+    t = draw(plain_texts())
+    k = draw(st.integers(0, 19))
+    if k == 0:
+        t = "\ufeff" + t
+    elif k == 1:
+        t = t + draw(st.sampled_from(["\udcff\udcfe\x00binary", "\n\x00\x00\x00",
+                                      "\udc80", "\r\n\udcc3"]))
+    elif k == 2:
+        t = "\ufeff" + t + "\n\udcff\udcfe"
+    return t
+
+
+@st.composite
+def plain_texts(draw):
     global _CORPUS
     if _CORPUS is None:
         _CORPUS = corpus()
@@ -395,9 +420,41 @@ def deep_cases(acc, idx):
         shutil.rmtree(workdir(), ignore_errors=True)
 
 
+DRESSED = ["\ufeffa = b\nEND\n", "\ufeff/* c */\nGROUP = g\n x = 1\nEND_GROUP\nEND\n",
+           "\ufeffa = 1\nEND\n\udcff\udcfe", "a = 1\nb = \"caf\u00e9\"\nEND\n\udcff",
+           "\ufeff", "\ufeff\n", "a = 1\nEND\n\x00\x00", "\udcffa = 1\nEND\n",
+           "a = \ufeff\nEND\n", "\r\na = 1\r\nEND\r\n", "a = 1 # c\rb = 2\rEND\r"]
+
+
+def dressed_cases(acc):
+    """Fixed files with a byte order mark, undecodable bytes, NULs, CR line ends: each
+    translated to every format and validated alone and in company."""
+    todo = []
+    for t in DRESSED:
+        todo += [("translate", t, f) for f in ("PDS3", "ODL", "ISIS", "PVL", "JSON")]
+        todo += [("validate", [t]), ("validate", ["a = 1\nEND\n", t, "b = \n"])]
+    try:
+        for case in todo:
+            if case[0] == "translate":
+                r = check_translate(case[1], case[2])
+                cj = dict(kind="translate", text=case[1], fmt=case[2])
+            else:
+                r = check_validate(case[1])
+                cj = dict(kind="validate", texts=case[1])
+            if r == UNSETTLED:
+                r = None
+            acc.event(f"dressed:{case[0]}")
+            acc.case(key=repr(case), nontrivial=True)
+            if r is not None:
+                acc.fail(r[0], cj, r[1])
+    finally:
+        shutil.rmtree(workdir(), ignore_errors=True)
+
+
 def shards(tier, seed):
     n = 160 if tier == "quick" else 1500
     out = [("deep_cases", dict(idx=i)) for i in range(len(deep_texts()))]
+    out.append(("dressed_cases", {}))
     out += [("random_cases", dict(n=n, seed=seed * 1000 + j)) for j in range(16)]
     return out
 
